@@ -1,7 +1,11 @@
 ------------------------------ MODULE MC_System ------------------------------
 (* EmsSystem instantiated with a base world read from a JSON file (the same   *)
 (* file the session driver concretises).                                       *)
-EXTENDS EmsSystem, IOUtils
+EXTENDS EmsSystem, IOUtils, SequencesExt
 SysBase == JsonDeserialize(IOEnv.SYS_BASE)
 SysVarChoices == {{}, {SysBase.vars[1].name}}
+\* request lists for Extract: the valid cells in ascending order, v[1] .. v[n]
+SysValid == SetToSortSeq(ValidCells(SysBase), <)
+SysPointLists == LET v == SysValid  n == Len(v)
+                 IN {<<v[n], v[1]>>, <<v[2], v[n], v[1], v[n]>>, <<v[n - 1]>>}
 =============================================================================
